@@ -25,6 +25,8 @@ def InFiles (st : St) (s : Int) : Prop := ∃ r, r ∈ fileRows st ∧ r.seq = s
 /-- log entry `s` is a corrupt one: it carries no rows -/
 def Bad (st : St) (s : Int) : Prop := 0 ≤ s ∧ st.log[s.toNat]? = some none
 
+instance (st : St) (s : Int) : Decidable (Bad st s) := by unfold Bad; exact inferInstance
+
 structure Inv (st : St) : Prop where
   ack_lo : -1 ≤ st.groupAck
   ack_cons : st.groupAck ≤ st.consumed
